@@ -143,6 +143,47 @@ def _always_exits(stmts):
     return False
 
 
+def dezip_view(mod, func):
+    """a copy of the function in which every comprehension / loop over zip(A, B, ...) of plain names with plain-name targets is written
+    as the index form: `for a, b in zip(A, B)` -> `for rep in range(len(A))` with a -> A[rep], b -> B[rep].  A *reading aid* for rules
+    that compare per-element expressions (which element of which list meets which); parents of the copy are registered in mod.parents."""
+    import copy as _copy
+    new = _copy.deepcopy(func)
+    k = 0
+    for n in list(ast.walk(new)):
+        gens = n.generators if isinstance(n, (ast.ListComp, ast.GeneratorExp, ast.SetComp, ast.DictComp)) else ([n] if isinstance(n, ast.For) else [])
+        for g in gens:
+            it = g.iter
+            if not (isinstance(it, ast.Call) and isinstance(it.func, ast.Name) and it.func.id == 'zip' and isinstance(g.target, ast.Tuple) and len(g.target.elts) == len(it.args) >= 2
+                    and all(isinstance(t, ast.Name) for t in g.target.elts) and all(isinstance(a, (ast.Name, ast.Attribute)) for a in it.args)):
+                continue
+            k += 1
+            iv = 'rep' if k == 1 else 'rep%d' % k
+            sub = {t.id: '%s[%s]' % (ast.unparse(a), iv) for t, a in zip(g.target.elts, it.args)}
+
+            class R(ast.NodeTransformer):
+                def visit_Name(self, x):
+                    if x.id in sub and isinstance(x.ctx, ast.Load):
+                        return ast.copy_location(ast.parse(sub[x.id], mode='eval').body, x)
+                    return x
+            owner = n
+            if isinstance(n, ast.For):
+                n.body = [R().visit(b) for b in n.body]
+            else:
+                if isinstance(n, ast.DictComp):
+                    n.key, n.value = R().visit(n.key), R().visit(n.value)
+                else:
+                    n.elt = R().visit(n.elt)
+                g.ifs = [R().visit(i) for i in g.ifs]
+            g.target = ast.copy_location(ast.Name(id=iv, ctx=ast.Store()), g.target)
+            g.iter = ast.copy_location(ast.parse('range(len(%s))' % ast.unparse(it.args[0]), mode='eval').body, it)
+    ast.fix_missing_locations(new)
+    for n in ast.walk(new):
+        for ch in ast.iter_child_nodes(n):
+            mod.parents[ch] = n
+    return new, k
+
+
 def established_false(mod, func, node):
     """tests known to be false when `node` executes: enclosing if/elif tests with negative polarity and the tests of preceding
     sibling if/elif chains (in any enclosing block of the function) whose branch leaves the block (raise/return/continue/break)"""
